@@ -384,6 +384,11 @@ func TestWorker(t *testing.T) {
 		seed := mixSeed(job.Master, job.Property, run)
 		rc, rng := generateCase(job.Property, job.Tier, run, seed)
 		rc.NoBlockWriter = writerNoBlock
+		if job.NoLag {
+			for i := range rc.C14 {
+				rc.C14[i].Lag, rc.C14[i].LagUS = 0, 0
+			}
+		}
 		announce(rc)
 		// watchdog on the real clock (this goroutine is outside every bubble):
 		// a run that neither finishes nor becomes quiescent is dumped and ends
